@@ -812,3 +812,34 @@ def lin_cases(rng, n):
             progs.append(" ; ".join(ops))
         cases.append("subs=%d || %s" % (nsubs, " | ".join(progs)))
     return cases
+
+
+# ---------------------------------------------------------------- ownership (mode own)
+def own_cases(rng, n):
+    adapters = ["head:2", "tail:2", "skip:1", "filter", "sort", "head:3>filter", "sort>tail:2", "skip:1>head:2",
+                "filter>sort", "tail:3>skip:1"]
+    base = ovec_random(rng, n, maxops=40)
+    cases = []
+    for c in base:
+        head, evs = c.split(" :: ")
+        ops = []
+        in_txn = False
+        for o in evs.split(" ; "):
+            if o == "tb":
+                in_txn = True
+            if o in ("tc", "td"):
+                in_txn = False
+            if o.startswith("sub(") and rng.random() < 0.6:
+                o = "sub(%s,%s)" % (o[4], rng.choice(adapters))
+            if in_txn and (o.startswith(("poll", "drain", "dropsub", "t.each", "t.eset", "t.eremove", "t.get"))):
+                continue          # not exercised inside a transaction in this mode
+            if o.startswith(("eset", "eremove")):
+                continue
+            ops.append(o)
+            r = rng.random()
+            if not in_txn and r < 0.25:
+                ops.append(rng.choice(("oset(%d)" % rng.randrange(30), "otake", "oupdate(%d)" % rng.randrange(30), "osub",
+                                       "opoll(%d)" % rng.randrange(3), "onext(%d)" % rng.randrange(3), "oshare", "oclone",
+                                       "odrop", "odropsub(%d)" % rng.randrange(3), "dropdiffs")))
+        cases.append(head + " :: " + " ; ".join(ops))
+    return cases
